@@ -394,12 +394,45 @@ func (s *session) handleTCP(c net.Conn) {
 	}
 }
 
-type evObs struct{ opens atomic.Int64 }
+type evObs struct {
+	opens  atomic.Int64
+	closes atomic.Int64
+	ch     chan struct{} // optional: poked on every close event
+}
 
 func (e *evObs) OnEvent(t upstream.Event) {
-	if t == upstream.EventConnOpen {
+	switch t {
+	case upstream.EventConnOpen:
 		e.opens.Add(1)
+	case upstream.EventConnClose:
+		e.closes.Add(1)
+		if e.ch != nil {
+			select {
+			case e.ch <- struct{}{}:
+			default:
+			}
+		}
 	}
+}
+
+// errOres classifies an error of an exchange that was given the deadline tmo:
+// a refused connection reported in less than half of the deadline is ORefused,
+// everything else (the caller's context error, EOF, read errors, a refusal
+// reported late) is OErr.
+func errOres(err error, elapsed, tmo time.Duration) (string, string) {
+	if errors.Is(err, syscall.ECONNREFUSED) && elapsed < tmo/2 {
+		return "ORefused", "connection refused"
+	}
+	cls := "other error"
+	switch {
+	case errors.Is(err, context.DeadlineExceeded):
+		cls = "the caller's deadline"
+	case errors.Is(err, syscall.ECONNREFUSED):
+		cls = "connection refused, but late"
+	case errors.Is(err, io.EOF), errors.Is(err, io.ErrUnexpectedEOF):
+		cls = "EOF"
+	}
+	return "OErr", fmt.Sprintf("error (%s) after %v", cls, elapsed.Round(10*time.Millisecond))
 }
 
 // Every exchange the driver starts has a deadline, so that a reply that never
@@ -474,13 +507,18 @@ func runSession(id string, listening, withObserver bool, steps []stepIn) (res se
 		o0 := ob.opens.Load()
 		var r *[]byte
 		var xerr error
+		t0 := time.Now()
 		p := hx.Recover(func() { r, xerr = u.ExchangeContext(ctx, q) })
+		elapsed := time.Since(t0)
 		cancel()
 		if !in.u.silent {
 			noteBlocked(xerr)
 		}
 		out := "OErr"
 		outDesc := "error"
+		if xerr != nil {
+			out, outDesc = errOres(xerr, elapsed, tmo)
+		}
 		switch {
 		case p != nil || !bytes.Equal(q, qc):
 			out, outDesc = "OPanic", "panic or query modified"
@@ -1162,7 +1200,7 @@ func (w *staleWorld) serveTCP() {
 	}
 }
 
-func runStale(id string, k int, p1 []timedQ, q2 timedQ) (*sessResult, error) {
+func runStale(id string, k int, p1 []timedQ, q2 timedQ, idleClose bool) (*sessResult, error) {
 	s, err := newSession(true)
 	if err != nil {
 		return nil, err
@@ -1173,7 +1211,12 @@ func runStale(id string, k int, p1 []timedQ, q2 timedQ) (*sessResult, error) {
 	s.wg.Add(2)
 	go w.serveUDP()
 	go w.serveTCP()
-	u, err := upstream.NewUpstream(fmt.Sprintf("udp://127.0.0.1:%d", s.port), upstream.Opt{})
+	opt := upstream.Opt{}
+	ob := &evObs{ch: make(chan struct{}, 1)}
+	if idleClose {
+		opt.EventObserver = ob
+	}
+	u, err := upstream.NewUpstream(fmt.Sprintf("udp://127.0.0.1:%d", s.port), opt)
 	if err != nil {
 		return nil, err
 	}
@@ -1208,10 +1251,39 @@ func runStale(id string, k int, p1 []timedQ, q2 timedQ) (*sessResult, error) {
 	w.mu.Lock()
 	w.phase = 2
 	w.mu.Unlock()
+	noticed := true
+	if idleClose {
+		// the server closes the k idle connections; wait until the client has seen all of them die
+		s.mu.Lock()
+		for _, c := range s.conns {
+			c.Close()
+		}
+		s.mu.Unlock()
+		deadline := time.After(callTimeout())
+	waitClosed:
+		for ob.closes.Load() < int64(k) {
+			select {
+			case <-ob.ch:
+			case <-time.After(20 * time.Millisecond):
+			case <-deadline:
+				noticed = false
+				break waitClosed
+			}
+		}
+	}
 	res, desc := exchangeOres(u, q2.bytes(), callTimeout())
 	w.mu.Lock()
 	acc, seenN, same := w.accepted, w.seenN, w.seenSame
 	w.mu.Unlock()
+	if idleClose {
+		return &sessResult{kind: "dead-idle", c: hx.Case{
+			ID:  id,
+			Coq: hx.App("CDeadIdle", hx.Ni(k), q2.coq(), hx.Bool(allOK), hx.Bool(noticed), res, hx.Ni(acc), hx.Ni(seenN), hx.Bool(same)),
+			Desc: map[string]any{"kind": "dead-idle-conns", "idle_conns_closed_by_server_while_idle": k, "phase1_all_answered": allOK,
+				"client_saw_them_die": noticed, "result": desc, "new_tcp_conns": acc, "tcp_queries_read": seenN, "tcp_queries_all_the_callers": same},
+			FKey: "dead-idle",
+		}}, nil
+	}
 	return &sessResult{kind: "stale", c: hx.Case{
 		ID:  id,
 		Coq: hx.App("CStale", hx.Ni(k), q2.coq(), hx.Bool(allOK), res, hx.Ni(acc), hx.Ni(seenN), hx.Bool(same)),
@@ -1227,10 +1299,12 @@ func staleJobs(o *hx.Opts, quick bool) []*timedJob {
 	if !quick {
 		maxK, per = 6, 6
 	}
-	for k := 1; k <= maxK; k++ {
+	for k := 1; k <= 6; k++ {
 		for v := 0; v < per; v++ {
 			id := fmt.Sprintf("stale:%d:%d", k, v)
-			if !o.Want(id) {
+			wantStale := o.Want(id) && k <= maxK
+			wantDead := (v == 0 || !quick) && o.Want(fmt.Sprintf("dead-idle:%d:%d", k, v))
+			if !wantStale && !wantDead {
 				continue
 			}
 			r := hx.NewRNG(o.Seed, id)
@@ -1241,7 +1315,15 @@ func staleJobs(o *hx.Opts, quick bool) []*timedJob {
 			}
 			q2 := timedQ{cid: base, qn: hx.Pick(r, []int{5, 17, 30}), qseed: r.U64() % 100000}
 			k := k
-			out = append(out, &timedJob{id: id, run: func() (*sessResult, error) { return runStale(id, k, p1, q2) }})
+			if wantStale {
+				out = append(out, &timedJob{id: id, run: func() (*sessResult, error) { return runStale(id, k, p1, q2, false) }})
+			}
+			if wantDead {
+				id2 := fmt.Sprintf("dead-idle:%d:%d", k, v)
+				{
+					out = append(out, &timedJob{id: id2, run: func() (*sessResult, error) { return runStale(id2, k, p1, q2, true) }})
+				}
+			}
 		}
 	}
 	return out
